@@ -12,7 +12,7 @@ DECODERS = ["fcp.serde:_decode_builtin_unsigned", "fcp.serde:_decode_builtin_sig
             "fcp.serde:_decode_builtin_double", "fcp.serde:_decode_enum", "fcp.serde:_decode_str", "fcp.serde:_decode_struct",
             "fcp.serde:_decode_array", "fcp.serde:_decode_dynamic_array", "fcp.serde:_decode_optional", "fcp.serde:_decode"]
 BIT_LEMMAS = ["lemmas:word_bits_len", "lemmas:wire_chars_len", "lemmas:max_is_enum_max", "fcp.specs.enum:Enum.max"]
-DECODERS_PROVED = [d for d in DECODERS if d != "fcp.serde:_decode_struct"] + ["fcp.serde:_Buffer.push_bytes", "fcp.serde:decode"]
+DECODERS_PROVED = DECODERS + ["fcp.serde:_Buffer.push_bytes", "fcp.serde:decode"]
 REFLECTION = ["fcp.specs.type:NumericType.reflection", "fcp.specs.type:StringType.reflection", "fcp.specs.type:EnumType.reflection",
               "fcp.specs.type:StructType.reflection", "fcp.specs.type:ArrayType.reflection", "fcp.specs.type:DynamicArrayType.reflection",
               "fcp.specs.type:OptionalType.reflection", "fcp.specs.metadata:MetaData.reflection",
@@ -43,7 +43,7 @@ ENCODING = ["fcp.encoding:PackedEncoder._get_type_length", "fcp.encoding:PackedE
             "fcp.specs.type:NumericType.get_length", "fcp.specs.enum:Enum.max", "lemmas:max_is_enum_max"]
 
 # per-function solver budgets (ms) above the tier default: sized so that the verdict does not flip on a loaded machine
-SLOW = {"fcp.serde:_decode": 60000, "fcp.serde:_decode_str": 30000, "fcp.serde:decode": 30000, "fcp.serde:_encode": 30000,
+SLOW = {"fcp.serde:_decode": 60000, "fcp.serde:_decode_struct": 60000, "fcp.serde:_decode_str": 30000, "fcp.serde:decode": 30000, "fcp.serde:_encode": 30000,
         "fcp.serde:_decode_dynamic_array": 30000, "fcp.serde:_encode_struct": 30000}
 
 PLANS = {
